@@ -647,7 +647,8 @@ class Extractor:
                 if self.is_module(base) or (base[0] == "a" and base[2] in ("main_module", "avoiding_module")):
                     return (tstr(base), C(t.attr))
                 if base[0] == "call" and base[1] == ("n", "top_module"):
-                    return ("top", C("top_comb"))
+                    # the top module's comb domain is the ungated `top_comb`; any other domain of it keeps its name
+                    return ("top", C("top_comb") if t.attr == "comb" else C(t.attr))
         if isinstance(t, ast.Subscript):
             b = t.value
             if isinstance(b, ast.Attribute) and b.attr == "d":
